@@ -1,3 +1,4 @@
+import GoRedisModel.Proofs.ReverseBy
 import GoRedisModel.Proofs.Translated
 import GoRedisModel.Proofs.Loop
 import GoRedisModel.Proofs.SourceFacts
@@ -109,5 +110,10 @@ theorem C07_source_windows_never_panic (v : Bytes) (s e : Int) (hl : (v.length :
     Translated.listIndex els s ≠ .panic := by
   rw [Translated.getrange_eq v s e hl hs he, Translated.limit_eq, Translated.listIndex_eq els s hel hs]
   exact ⟨by simp, by simp, by simp⟩
+
+/-- `(*Array).ReverseBy` as written never indexes out of range: whatever array a handler returns (odd lengths included)
+and whatever the step, the loops end in a value (the pre-repair code panicked on an odd length with step 2) -/
+theorem C07_ex_reverseBy_never_panics (es : List Msg) (step : Int) : Ex.reverseBy es step ≠ none := by
+  rw [Ex.reverseBy_eq]; simp
 
 end GoRedis
